@@ -252,8 +252,8 @@ EQV_PARTIAL = ['the equivariance theorems are stated for the formula stages (eve
                'equality of the two COMPUTED Newton solutions / linear solves needs local uniqueness and convergence: measured by the oracle (1e-7), not proved']
 
 PROPS['C05'] = dict(
-    lean=['QscProofs.Eqv', 'QscProofs.C20Spec', 'QscProofs.C03Axis', 'QscProofs.EqvGrid', 'QscProofs.C05Sigma', 'QscProofs.C06Sigma', 'QscProofs.C13Cyc'], theorems=eqv_theorems(EQV_ALL) + ['C05Sigma.' + t for t in ('sig_shiftState', 'residual_shift_covariant', 'solution_shift', 'solution_shift_iff', 'gridD_comm_shift', 'residual_shift_covariant_grid', 'solution_shift_grid')] + ['C06Sigma.' + t for t in ('gridDw_comm_shift', 'residual_shift_covariant₂', 'residual_shift_covariant_gridw', 'solution_shift_gridw', 'gridDw_not_comm_shift')] + ['C20Spec.toep_circulant', 'C03Axis.f0_periodic', 'EqvGrid.toep_shift', 'EqvGrid.gridOps_lawful', 'EqvGrid.curvature_shift', 'EqvGrid.X2c_shift', 'EqvGrid.DMerc_times_r2_shift', 'C13Cyc.counter_rotate', 'C13Cyc.helicity_shift'],
-    gen=EQV_ALL, eqv=EQV_ALL, corr=corr_generated(['Axis', 'R1d', 'R2', 'R3']), oracle=oracle_multi(oracles.oracle_C05, lambda objs, st: oracles.oracle_helicity_kernel(st, 5, 12)),
+    lean=['QscProofs.Eqv', 'QscProofs.C20Spec', 'QscProofs.C03Axis', 'QscProofs.EqvGrid', 'QscProofs.C05Sigma', 'QscProofs.C06Sigma', 'QscProofs.C13Cyc', 'QscProofs.C05Axis'], theorems=eqv_theorems(EQV_ALL) + ['C05Sigma.' + t for t in ('sig_shiftState', 'residual_shift_covariant', 'solution_shift', 'solution_shift_iff', 'gridD_comm_shift', 'residual_shift_covariant_grid', 'solution_shift_grid')] + ['C06Sigma.' + t for t in ('gridDw_comm_shift', 'residual_shift_covariant₂', 'residual_shift_covariant_gridw', 'solution_shift_gridw', 'gridDw_not_comm_shift')] + ['C20Spec.toep_circulant', 'C03Axis.f0_periodic', 'EqvGrid.toep_shift', 'EqvGrid.gridOps_lawful', 'EqvGrid.curvature_shift', 'EqvGrid.X2c_shift', 'EqvGrid.DMerc_times_r2_shift', 'C13Cyc.counter_rotate', 'C13Cyc.helicity_shift', 'C05Axis.f0_origin_shift', 'C05Axis.f1_origin_shift', 'C05Axis.f2_origin_shift', 'C05Axis.f3_origin_shift'],
+    gen=EQV_ALL, eqv=EQV_ALL, corr=corr_merge(corr_generated(['Axis', 'R1d', 'R2', 'R3']), corr_hand_kernels(['helicity', 'axis'])), oracle=oracle_multi(oracles.oracle_C05, lambda objs, st: oracles.oracle_helicity_kernel(st, 5, 12)),
     rule=RULE, partial=EQV_PARTIAL + ['the first-order solve: the cyclically shifted solution (same iota, sigma0 taken at the new origin) solves the shifted discrete sigma equation - proved for the generated residual and the concrete d/dvarphi matrix with its (shifted) non-constant weight (C05Sigma, C06Sigma); that Newton FINDS that root from the shifted initial guess is the measured part (the oracle checks both descriptions converge to it)', 'phi, varphi and (for helicity != 0) the *_untwisted coefficients are coordinate-dependent: they follow explicit laws (checked by the oracle), not a cyclic shift'])
 PROPS['C06'] = dict(
     lean=['QscProofs.Eqv', 'QscProofs.C13', 'QscProofs.EqvGrid', 'QscProofs.C06Sigma', 'QscProofs.C13Cyc', 'QscProofs.C06Axis'], theorems=eqv_theorems(EQV_ALL) + ['C06Sigma.' + t for t in ('gridDw_rep', 'residual_repetition_covariant', 'solution_repetition', 'residual_repetition_covariant_grid', 'solution_repetition_grid', 'resForm_repetition')] + ['C13.counter_mul_four', 'EqvGrid.toep_rep', 'EqvGrid.sum_comp_modNat', 'EqvGrid.linearMap_eq_zero_of_modes', 'EqvGrid.curvature_repetition', 'EqvGrid.X2c_repetition', 'EqvGrid.DMerc_times_r2_repetition', 'C13Cyc.counter_rep', 'C13Cyc.helicity_repetition', 'C13Cyc.helicity_nfp_invariant', 'C06Axis.sumRange_interleave', 'C06Axis.f0_interleave', 'C06Axis.f1_interleave', 'C06Axis.f2_interleave', 'C06Axis.f3_interleave'],
